@@ -76,6 +76,7 @@ func responseErrorCode(proto, kind string, rec *httptest.ResponseRecorder) (int,
 }
 
 func hreqOp(c *Ctx, op string) {
+	c.Begin(op)
 	a := kvArgs(strings.Fields(op))
 	proto, kind := a["proto"], a["kind"]
 	max := atoi(a["max"])
